@@ -55,6 +55,10 @@ type SCase struct {
 	NoNegZero bool   `json:"no_negzero,omitempty"` // val_mode 2: no -0.0 among the float values (set with the MLF float compressor: finding C07-mlf-negative-zero)
 	MaxWalRec int    `json:"max_wal_rec,omitempty"`  // CrashOps "wal": at most this many log records are torn (0 = all)
 	TornPer   int    `json:"torn_per,omitempty"`     // CrashOps "wal": prefixes tried per record (0 = every prefix)
+	// val_mode 0: which integer/float cell values are negative (0 none - as in older replay files; 1 series with an odd
+	// number; 2 all; 3 every third time slot).  Aggregate reducers start from zero-valued slots: all-negative groups
+	// and buckets are their corner (seeded change C09-c)
+	NegMode int `json:"neg,omitempty"`
 }
 
 type worldS struct{}
@@ -246,6 +250,9 @@ func (worldS) Gen(r *core.Rand, env *core.Env) SCase {
 			c.Ops = append(c.Ops, SOp{K: "reopen"})
 		}
 	}
+	if c.ValMode == 0 {
+		c.NegMode = core.Pick(r, []int{0, 0, 1, 2, 3}) // drawn last: everything else is what the seed produced before
+	}
 	return c
 }
 
@@ -430,6 +437,8 @@ func (w worldS) Exec(c SCase, env *core.Env) *core.Outcome {
 		prop = c.Prop
 	}
 	sValMode, sValSeed = c.ValMode, c.ValSeed
+	sNegMode = c.NegMode
+	defer func() { sNegMode = 0 }()
 	if c.ValMode == 2 {
 		sTimeTab = codecTimeTable(c.TimeMode, c.ValSeed, c.nslots())
 		sNoNegZero = c.NoNegZero
